@@ -18,8 +18,8 @@ Record quote_pair (o c : Z) : Prop := {
   qp_ol : is_left_quote o = true;  qp_or : is_right_quote o = false;
   qp_cl : is_left_quote c = false; qp_cr : is_right_quote c = true;
   qp_oc : o <> c;
-  qp_o0 : o <> 0; qp_oCR : o <> CR; qp_oLF : o <> LF; qp_oBT : o <> BT;
-  qp_c0 : c <> 0; qp_cCR : c <> CR; qp_cLF : c <> LF; qp_cBT : c <> BT }.
+  qp_o0 : o <> EOFc; qp_oCR : o <> CR; qp_oLF : o <> LF; qp_oBT : o <> BT;
+  qp_c0 : c <> EOFc; qp_oN : o <> 0; qp_cN : c <> 0; qp_cCR : c <> CR; qp_cLF : c <> LF; qp_cBT : c <> BT }.
 
 Lemma quote_pair_of o : is_left_quote o = true -> quote_pair o (quote_match o).
 Proof.
@@ -27,7 +27,7 @@ Proof.
     constructor; vm_compute; congruence.
 Qed.
 
-Lemma is_quote_not_special q : is_quote q = true -> q <> 0 /\ q <> CR /\ q <> LF /\ q <> BT.
+Lemma is_quote_not_special q : is_quote q = true -> q <> EOFc /\ q <> CR /\ q <> LF /\ q <> BT.
 Proof.
   unfold is_quote. rewrite orb_true_iff. intros [H|H].
   - destruct (left_quote_cases q H) as [-> | [-> | [-> | [-> | ->]]]]; vm_compute; repeat split; congruence.
@@ -71,11 +71,11 @@ Section Steps.
   (* an ordinary character (anything but NUL, CR, LF, backtick and the two own quotes — foreign quotes included) is
      appended verbatim and does not change the depth *)
   Lemma ps_plain f q lit lines pos x R :
-    x <> 0 -> x <> CR -> x <> LF -> x <> BT -> x <> o -> x <> c ->
+    x <> EOFc -> x <> CR -> x <> LF -> x <> BT -> x <> o -> x <> c ->
     ps_loop (S f) o q lit lines pos (x :: R) = ps_loop f o q (lit ++ [x]) lines (pos + 1) R.
   Proof.
     intros H0 HCR HLF HBT Ho Hc. rewrite ps_loop_S. cbn [peek hd tl]. cbv zeta.
-    unfold EOFc. neqb H0. neqb HCR. neqb HLF. cbn [orb].
+    neqb H0. neqb HCR. neqb HLF. cbn [orb].
     assert (Hoe : (o =? x) = false) by (apply Z.eqb_neq; congruence).
     assert (Hce : (quote_match o =? x) = false) by (rewrite (qp_match _ _ QP); apply Z.eqb_neq; congruence).
     rewrite Hoe, Hce. neqb HBT.
@@ -85,7 +85,7 @@ Section Steps.
   Lemma ps_open f q lit lines pos R :
     ps_loop (S f) o q lit lines pos (o :: R) = ps_loop f o (q + 1) (lit ++ [o]) lines (pos + 1) R.
   Proof.
-    rewrite ps_loop_S. cbn [peek hd tl]. cbv zeta. unfold EOFc.
+    rewrite ps_loop_S. cbn [peek hd tl]. cbv zeta.
     neqb (qp_o0 _ _ QP). neqb (qp_oCR _ _ QP). neqb (qp_oLF _ _ QP). cbn [orb].
     rewrite (qp_ol _ _ QP), Z.eqb_refl. reflexivity.
   Qed.
@@ -93,7 +93,7 @@ Section Steps.
   Lemma ps_close_nested f q lit lines pos R : q - 1 <> 0 ->
     ps_loop (S f) o q lit lines pos (c :: R) = ps_loop f o (q - 1) (lit ++ [c]) lines (pos + 1) R.
   Proof.
-    intros Hq. rewrite ps_loop_S. cbn [peek hd tl]. cbv zeta. unfold EOFc.
+    intros Hq. rewrite ps_loop_S. cbn [peek hd tl]. cbv zeta.
     neqb (qp_c0 _ _ QP). neqb (qp_cCR _ _ QP). neqb (qp_cLF _ _ QP). cbn [orb].
     rewrite (qp_cl _ _ QP), (qp_cr _ _ QP), (qp_match _ _ QP), Z.eqb_refl. neqb Hq. reflexivity.
   Qed.
@@ -101,7 +101,7 @@ Section Steps.
   Lemma ps_close_final f lit lines pos R :
     ps_loop (S f) o 1 lit lines pos (c :: R) = LexOk (token_type o) lit (pos + 2) lines.
   Proof.
-    rewrite ps_loop_S. cbn [peek hd tl]. cbv zeta. unfold EOFc.
+    rewrite ps_loop_S. cbn [peek hd tl]. cbv zeta.
     neqb (qp_c0 _ _ QP). neqb (qp_cCR _ _ QP). neqb (qp_cLF _ _ QP). cbn [orb].
     rewrite (qp_cl _ _ QP), (qp_cr _ _ QP), (qp_match _ _ QP), Z.eqb_refl.
     change (1 - 1 =? 0) with true. cbv iota. f_equal. lia.
@@ -187,30 +187,30 @@ Lemma surplus_cons o c x r : surplus o c (x :: r) =
   if x =? c then S (surplus o c r) else if x =? o then Nat.pred (surplus o c r) else surplus o c r.
 Proof. reflexivity. Qed.
 
-Lemma encode_from_cons o c k x r : encode_from o c k (x :: r) =
-      if x =? BT then esc_BK ++ encode_from o c k r
-      else if x =? 0 then esc_NUL ++ encode_from o c k r
+Lemma encode_from_cons nul o c k x r : encode_from nul o c k (x :: r) =
+      if x =? BT then esc_BK ++ encode_from nul o c k r
+      else if nul && (x =? 0) then esc_NUL ++ encode_from nul o c k r
       else if x =? c then
         match k with
-        | O => wrap c ++ encode_from o c O r
-        | S k' => c :: encode_from o c k' r
+        | O => wrap c ++ encode_from nul o c O r
+        | S k' => c :: encode_from nul o c k' r
         end
       else if x =? o then
         match surplus o c r with
-        | O => wrap o ++ encode_from o c k r
-        | S _ => o :: encode_from o c (S k) r
+        | O => wrap o ++ encode_from nul o c k r
+        | S _ => o :: encode_from nul o c (S k) r
         end
-      else x :: encode_from o c k r.
+      else x :: encode_from nul o c k r.
 Proof. reflexivity. Qed.
 
 (* first character of an encoded remainder followed by the closing quote *)
-Lemma peek_encode o c k r tail y : y <> BT -> y <> c ->
-  peek (encode_from o c k r ++ c :: tail) = y -> exists r', r = y :: r'.
+Lemma peek_encode nul o c k r tail y : y <> BT -> y <> c ->
+  peek (encode_from nul o c k r ++ c :: tail) = y -> exists r', r = y :: r'.
 Proof.
   intros HBT Hc. destruct r as [|x r']; [cbn; congruence|].
   rewrite encode_from_cons.
   destruct (x =? BT); [cbn; congruence|].
-  destruct (x =? 0); [cbn; congruence|].
+  destruct (nul && (x =? 0)); [cbn; congruence|].
   destruct (x =? c) eqn:Exc.
   { apply Z.eqb_eq in Exc. destruct k; cbn; intros; subst; congruence. }
   destruct (x =? o) eqn:Exo.
@@ -224,19 +224,21 @@ Proof. cbn. auto. Qed.
 Section RoundTrip.
   Variables o c : Z.
   Hypothesis QP : quote_pair o c.
+  Variable nul : bool.
 
-  Lemma roundtrip_gen : forall n s, (length s <= n)%nat ->
+  Lemma roundtrip_gen : forall n s, (length s <= n)%nat -> Forall (fun x => 0 <= x) s ->
     forall k fuel lit lines pos tail,
       (k <= surplus o c s)%nat ->
-      (length (encode_from o c k s) + 1 <= fuel)%nat ->
+      (length (encode_from nul o c k s) + 1 <= fuel)%nat ->
       exists lines',
-        ps_loop fuel o (1 + Z.of_nat k) lit lines pos (encode_from o c k s ++ c :: tail)
-        = LexOk (token_type o) (lit ++ s) (pos + Z.of_nat (length (encode_from o c k s)) + 2) lines'.
+        ps_loop fuel o (1 + Z.of_nat k) lit lines pos (encode_from nul o c k s ++ c :: tail)
+        = LexOk (token_type o) (lit ++ s) (pos + Z.of_nat (length (encode_from nul o c k s)) + 2) lines'.
   Proof.
     pose proof (qp_oBT _ _ QP) as HoBT. pose proof (qp_cBT _ _ QP) as HcBT.
     pose proof (qp_o0 _ _ QP) as Ho0. pose proof (qp_c0 _ _ QP) as Hc0.
     pose proof (qp_oc _ _ QP) as Hoc.
-    induction n as [|n IH]; intros s Hlen k fuel lit lines pos tail Hk Hfuel.
+    pose proof (qp_oN _ _ QP) as HoN. pose proof (qp_cN _ _ QP) as HcN.
+    induction n as [|n IH]; intros s Hlen Hpos k fuel lit lines pos tail Hk Hfuel.
     - destruct s; [|cbn in Hlen; lia]. cbn in Hk. assert (k = 0)%nat by lia. subst k.
       cbn [encode_from app length] in *. destruct fuel as [|f]; [lia|].
       exists lines. change (1 + Z.of_nat 0) with 1. rewrite (ps_close_final _ _ QP). rewrite app_nil_r.
@@ -247,6 +249,7 @@ Section RoundTrip.
         exists lines. change (1 + Z.of_nat 0) with 1. rewrite (ps_close_final _ _ QP). rewrite app_nil_r.
         f_equal. cbn. lia. }
       cbn [length] in Hlen. assert (Hr : (length r <= n)%nat) by lia.
+      inversion Hpos as [|? ? Hx0 Hr0]; subst.
       rewrite surplus_cons in Hk. rewrite encode_from_cons in *.
       destruct (x =? BT) eqn:ExBT.
       { (* a backtick is written `BK` *)
@@ -254,35 +257,35 @@ Section RoundTrip.
         neqb (not_eq_sym HcBT) in Hk. neqb (not_eq_sym HoBT) in Hk.
         rewrite app_length in Hfuel. cbn [esc_BK length] in Hfuel.
         destruct fuel as [|f]; [lia|].
-        destruct (IH r Hr k f (lit ++ [BT]) lines (pos + 4) tail Hk ltac:(lia)) as [lines' E].
+        destruct (IH r Hr Hr0 k f (lit ++ [BT]) lines (pos + 4) tail Hk ltac:(lia)) as [lines' E].
         exists lines'. rewrite <- app_assoc. rewrite (ps_name o _ _ In_BK).
         cbn [esc_BK length]. change (Z.of_nat 4) with 4. rewrite E. rewrite <- app_assoc. cbn [app].
         f_equal. rewrite app_length. cbn [esc_BK length]. lia. }
-      destruct (x =? 0) eqn:Ex0.
-      { (* NUL is written `U+0` *)
-        apply Z.eqb_eq in Ex0. subst x.
+      destruct (nul && (x =? 0)) eqn:Ex0.
+      { (* NUL is written `U+0` (when the encoder is asked to) *)
+        apply andb_true_iff in Ex0. destruct Ex0 as [_ Ex0]. apply Z.eqb_eq in Ex0. subst x.
         assert (H0c : 0 <> c) by congruence. assert (H0o : 0 <> o) by congruence.
         neqb H0c in Hk. neqb H0o in Hk.
         rewrite app_length in Hfuel. cbn [esc_NUL length] in Hfuel.
         destruct fuel as [|f]; [lia|].
-        destruct (IH r Hr k f (lit ++ [0]) lines (pos + 5) tail Hk ltac:(lia)) as [lines' E].
+        destruct (IH r Hr Hr0 k f (lit ++ [0]) lines (pos + 5) tail Hk ltac:(lia)) as [lines' E].
         exists lines'. rewrite <- app_assoc. rewrite (ps_NUL o).
         rewrite E. rewrite <- app_assoc. cbn [app].
         f_equal. rewrite app_length. cbn [esc_NUL length]. lia. }
-      apply Z.eqb_neq in ExBT, Ex0.
+      apply Z.eqb_neq in ExBT.
       destruct (x =? c) eqn:Exc.
       { apply Z.eqb_eq in Exc. subst x. destruct k as [|k'].
         - (* own closing quote with no partner: `c` *)
           rewrite app_length in Hfuel. cbn [wrap length] in Hfuel.
           destruct fuel as [|f]; [lia|].
-          destruct (IH r Hr 0%nat f (lit ++ [c]) lines (pos + 3) tail ltac:(lia) ltac:(lia)) as [lines' E].
+          destruct (IH r Hr Hr0 0%nat f (lit ++ [c]) lines (pos + 3) tail ltac:(lia) ltac:(lia)) as [lines' E].
           exists lines'. rewrite <- app_assoc. rewrite (ps_wrapped o).
           2:{ unfold is_quote. rewrite (qp_cr _ _ QP). apply orb_true_r. }
           rewrite E. rewrite <- app_assoc. cbn [app].
           f_equal. rewrite app_length. cbn [wrap length]. lia.
         - (* closes a verbatim opening quote *)
           cbn [length] in Hfuel. destruct fuel as [|f]; [lia|].
-          destruct (IH r Hr k' f (lit ++ [c]) lines (pos + 1) tail ltac:(lia) ltac:(lia)) as [lines' E].
+          destruct (IH r Hr Hr0 k' f (lit ++ [c]) lines (pos + 1) tail ltac:(lia) ltac:(lia)) as [lines' E].
           exists lines'. cbn [app]. rewrite (ps_close_nested _ _ QP) by lia.
           replace (1 + Z.of_nat (S k') - 1) with (1 + Z.of_nat k') by lia.
           rewrite E. rewrite <- app_assoc. cbn [app]. f_equal. cbn [length]. lia. }
@@ -292,14 +295,14 @@ Section RoundTrip.
         - (* own opening quote with no partner: `o` *)
           rewrite app_length in Hfuel. cbn [wrap length] in Hfuel.
           destruct fuel as [|f]; [lia|].
-          destruct (IH r Hr k f (lit ++ [o]) lines (pos + 3) tail ltac:(cbn in Hk; lia) ltac:(lia)) as [lines' E].
+          destruct (IH r Hr Hr0 k f (lit ++ [o]) lines (pos + 3) tail ltac:(cbn in Hk; lia) ltac:(lia)) as [lines' E].
           exists lines'. rewrite <- app_assoc. rewrite (ps_wrapped o).
           2:{ unfold is_quote. rewrite (qp_ol _ _ QP). reflexivity. }
           rewrite E. rewrite <- app_assoc. cbn [app].
           f_equal. rewrite app_length. cbn [wrap length]. lia.
         - (* balanced: verbatim, one level deeper *)
           cbn [length] in Hfuel. destruct fuel as [|f]; [lia|].
-          destruct (IH r Hr (S k) f (lit ++ [o]) lines (pos + 1) tail ltac:(cbn in Hk; lia) ltac:(lia)) as [lines' E].
+          destruct (IH r Hr Hr0 (S k) f (lit ++ [o]) lines (pos + 1) tail ltac:(cbn in Hk; lia) ltac:(lia)) as [lines' E].
           exists lines'. cbn [app]. rewrite (ps_open _ _ QP).
           replace (1 + Z.of_nat k + 1) with (1 + Z.of_nat (S k)) by lia.
           rewrite E. rewrite <- app_assoc. cbn [app]. f_equal. cbn [length]. lia. }
@@ -307,41 +310,44 @@ Section RoundTrip.
       (* any other character is written verbatim *)
       cbn [length] in Hfuel. destruct fuel as [|f]; [lia|]. cbn [app].
       destruct (Z.eq_dec x CR) as [ECR|NCR].
-      { subst x. destruct (Z.eq_dec (peek (encode_from o c k r ++ c :: tail)) LF) as [EP|NP].
+      { subst x. destruct (Z.eq_dec (peek (encode_from nul o c k r ++ c :: tail)) LF) as [EP|NP].
         - (* CR LF: one line break, both characters kept *)
-          destruct (peek_encode o c k r tail LF ltac:(discriminate) ltac:(apply not_eq_sym, (qp_cLF _ _ QP)) EP) as [r' ->].
+          destruct (peek_encode nul o c k r tail LF ltac:(discriminate) ltac:(apply not_eq_sym, (qp_cLF _ _ QP)) EP) as [r' ->].
           assert (HLFc : LF <> c) by (apply not_eq_sym, (qp_cLF _ _ QP)).
           assert (HLFo : LF <> o) by (apply not_eq_sym, (qp_oLF _ _ QP)).
           rewrite surplus_cons in Hk. neqb HLFc in Hk. neqb HLFo in Hk.
           rewrite encode_from_cons in *.
-          change (LF =? BT) with false in *. change (LF =? 0) with false in *.
+          change (LF =? BT) with false in *. change (LF =? 0) with false in *. rewrite andb_false_r in *.
+          inversion Hr0 as [|? ? _ Hr0']; subst.
           neqb HLFc. neqb HLFo. neqb HLFc in Hfuel. neqb HLFo in Hfuel.
           cbn [length] in Hfuel, Hr. destruct f as [|f']; [lia|].
-          destruct (IH r' ltac:(lia) k (S f') ((lit ++ [CR]) ++ [LF]) (lines ++ [pos + 1 + 1 + 1]) (pos + 1 + 1) tail Hk ltac:(lia))
+          destruct (IH r' ltac:(lia) Hr0' k (S f') ((lit ++ [CR]) ++ [LF]) (lines ++ [pos + 1 + 1 + 1]) (pos + 1 + 1) tail Hk ltac:(lia))
             as [lines' E].
           exists lines'. cbn [app]. rewrite (ps_crlf o). rewrite E. rewrite <- !app_assoc. cbn [app].
           f_equal. cbn [length]. lia.
-        - destruct (IH r Hr k f (lit ++ [CR]) (lines ++ [pos + 1 + 1]) (pos + 1) tail Hk ltac:(lia)) as [lines' E].
+        - destruct (IH r Hr Hr0 k f (lit ++ [CR]) (lines ++ [pos + 1 + 1]) (pos + 1) tail Hk ltac:(lia)) as [lines' E].
           exists lines'. rewrite (ps_cr o) by assumption. rewrite E. rewrite <- app_assoc. cbn [app].
           f_equal. cbn [length]. lia. }
       destruct (Z.eq_dec x LF) as [ELF|NLF].
-      { subst x. destruct (Z.eq_dec (peek (encode_from o c k r ++ c :: tail)) CR) as [EP|NP].
-        - destruct (peek_encode o c k r tail CR ltac:(discriminate) ltac:(apply not_eq_sym, (qp_cCR _ _ QP)) EP) as [r' ->].
+      { subst x. destruct (Z.eq_dec (peek (encode_from nul o c k r ++ c :: tail)) CR) as [EP|NP].
+        - destruct (peek_encode nul o c k r tail CR ltac:(discriminate) ltac:(apply not_eq_sym, (qp_cCR _ _ QP)) EP) as [r' ->].
           assert (HCRc : CR <> c) by (apply not_eq_sym, (qp_cCR _ _ QP)).
           assert (HCRo : CR <> o) by (apply not_eq_sym, (qp_oCR _ _ QP)).
           rewrite surplus_cons in Hk. neqb HCRc in Hk. neqb HCRo in Hk.
           rewrite encode_from_cons in *.
-          change (CR =? BT) with false in *. change (CR =? 0) with false in *.
+          change (CR =? BT) with false in *. change (CR =? 0) with false in *. rewrite andb_false_r in *.
+          inversion Hr0 as [|? ? _ Hr0']; subst.
           neqb HCRc. neqb HCRo. neqb HCRc in Hfuel. neqb HCRo in Hfuel.
           cbn [length] in Hfuel, Hr. destruct f as [|f']; [lia|].
-          destruct (IH r' ltac:(lia) k (S f') ((lit ++ [LF]) ++ [CR]) (lines ++ [pos + 1 + 1 + 1]) (pos + 1 + 1) tail Hk ltac:(lia))
+          destruct (IH r' ltac:(lia) Hr0' k (S f') ((lit ++ [LF]) ++ [CR]) (lines ++ [pos + 1 + 1 + 1]) (pos + 1 + 1) tail Hk ltac:(lia))
             as [lines' E].
           exists lines'. cbn [app]. rewrite (ps_lfcr o). rewrite E. rewrite <- !app_assoc. cbn [app].
           f_equal. cbn [length]. lia.
-        - destruct (IH r Hr k f (lit ++ [LF]) (lines ++ [pos + 1 + 1]) (pos + 1) tail Hk ltac:(lia)) as [lines' E].
+        - destruct (IH r Hr Hr0 k f (lit ++ [LF]) (lines ++ [pos + 1 + 1]) (pos + 1) tail Hk ltac:(lia)) as [lines' E].
           exists lines'. rewrite (ps_lf o) by assumption. rewrite E. rewrite <- app_assoc. cbn [app].
           f_equal. cbn [length]. lia. }
-      destruct (IH r Hr k f (lit ++ [x]) lines (pos + 1) tail Hk ltac:(lia)) as [lines' E].
+      destruct (IH r Hr Hr0 k f (lit ++ [x]) lines (pos + 1) tail Hk ltac:(lia)) as [lines' E].
+      assert (HxE : x <> EOFc) by (unfold EOFc; lia).
       exists lines'. rewrite (ps_plain _ _ QP) by assumption. rewrite E. rewrite <- app_assoc. cbn [app].
       f_equal. cbn [length]. lia.
   Qed.
@@ -352,29 +358,42 @@ Proof.
   induction 1 as [|x r Hx _ IH]; [reflexivity|]. cbn [to_text map]. rewrite Hx. f_equal. exact IH.
 Qed.
 
-(* Every text can be written as a literal, in each of the five quote styles, and reads back exactly:
-   whatever follows the literal, the token is the text and ends right after the closing quote. *)
-Theorem roundtrip : forall o s tail, is_left_quote o = true ->
-  exists lines,
-    lex_string (literal_of o s ++ tail)
-    = LexOk (token_type o) s (Z.of_nat (length (literal_of o s))) lines.
+Lemma scalar_nonneg s : Forall (fun x => scalar x = true) s -> Forall (fun x => 0 <= x) s.
 Proof.
-  intros o s tail Ho. pose proof (quote_pair_of o Ho) as QP.
-  unfold literal_of, encode. set (c := quote_match o) in *.
+  apply Forall_impl. intros x H. unfold scalar in H. apply orb_true_iff in H.
+  destruct H as [H|H]; apply andb_true_iff in H; destruct H as [H _]; apply Z.leb_le in H; lia.
+Qed.
+
+(* Every text (list of code points) can be written as a literal, in each of the five quote styles, and reads back
+   exactly: whatever follows the literal, the token is the text and ends right after the closing quote.
+   Both encoders: NUL as `U+0` (nul = true) or verbatim (nul = false). *)
+Theorem roundtrip_flag : forall nul o s tail, is_left_quote o = true -> Forall (fun x => 0 <= x) s ->
+  exists lines,
+    lex_string (literal_gen nul o s ++ tail)
+    = LexOk (token_type o) s (Z.of_nat (length (literal_gen nul o s))) lines.
+Proof.
+  intros nul o s tail Ho Hs. pose proof (quote_pair_of o Ho) as QP.
+  unfold literal_gen, encode_gen. set (c := quote_match o) in *.
   cbn [app]. rewrite <- app_assoc. cbn [app]. unfold lex_string. rewrite Ho.
-  destruct (roundtrip_gen o c QP (length s) s (le_n _) 0%nat
-              (length (o :: encode_from o c 0 s ++ c :: tail)) [] [0] 0 tail (Nat.le_0_l _)) as [lines E].
+  destruct (roundtrip_gen o c QP nul (length s) s (le_n _) Hs 0%nat
+              (length (o :: encode_from nul o c 0 s ++ c :: tail)) [] [0] 0 tail (Nat.le_0_l _)) as [lines E].
   { cbn [length]. rewrite app_length. lia. }
   exists lines. change (1 + Z.of_nat 0) with 1 in E. rewrite E. cbn [app]. f_equal.
   cbn [length]. rewrite app_length. cbn [length]. lia.
 Qed.
+
+Theorem roundtrip : forall o s tail, is_left_quote o = true -> Forall (fun x => 0 <= x) s ->
+  exists lines,
+    lex_string (literal_of o s ++ tail)
+    = LexOk (token_type o) s (Z.of_nat (length (literal_of o s))) lines.
+Proof. intros o s tail. exact (roundtrip_flag true o s tail). Qed.
 
 (* ... and the text value the interpreter builds from the token (string(runes)) is the text itself
    when the text consists of Unicode scalar values *)
 Corollary roundtrip_value : forall o s tail, is_left_quote o = true -> Forall (fun x => scalar x = true) s ->
   exists e lines, lex_string (literal_of o s ++ tail) = LexOk (token_type o) s e lines /\ to_text s = s.
 Proof.
-  intros o s tail Ho Hs. destruct (roundtrip o s tail Ho) as [lines E].
+  intros o s tail Ho Hs. destruct (roundtrip o s tail Ho (scalar_nonneg _ Hs)) as [lines E].
   eexists; exists lines; split; [exact E | apply Forall_scalar_to_text; exact Hs].
 Qed.
 
@@ -388,12 +407,19 @@ Proof.
     + destruct (x =? o); [rewrite (IH _ H); reflexivity | apply IH, H].
 Qed.
 
+Lemma no_special_nonneg s : no_special s = true -> Forall (fun x => 0 <= x) s.
+Proof.
+  induction s as [|x r IH]; [constructor|]. cbn [no_special forallb]. intros H.
+  apply andb_true_iff in H. destruct H as [Hx Hr]. apply andb_true_iff in Hx. destruct Hx as [_ Hx].
+  constructor; [apply Z.leb_le; exact Hx | apply IH; exact Hr].
+Qed.
+
 Lemma encode_balanced o c : o <> c -> forall s k, no_special s = true -> balanced o c k s = true ->
-  encode_from o c k s = s.
+  encode_from false o c k s = s.
 Proof.
   intros Hoc. induction s as [|x r IH]; intros k Hn Hb; [reflexivity|].
   rewrite encode_from_cons. cbn [no_special forallb] in Hn. apply andb_true_iff in Hn. destruct Hn as [Hx Hn].
-  apply andb_true_iff in Hx. destruct Hx as [H1 H2]. apply negb_true_iff in H1, H2. rewrite H1, H2.
+  apply andb_true_iff in Hx. destruct Hx as [H1 _]. apply negb_true_iff in H1. rewrite H1. cbn [andb].
   cbn [balanced] in Hb. destruct (x =? c) eqn:Exc.
   - apply Z.eqb_eq in Exc. subst x. destruct k; [discriminate|]. f_equal. apply IH; assumption.
   - destruct (x =? o) eqn:Exo.
@@ -402,7 +428,7 @@ Proof.
 Qed.
 
 (* The characters between the outer quotes become the value verbatim — nested balanced pairs of the own quotes,
-   all foreign quotes, line breaks, everything except backtick and NUL — and the literal closes exactly at the own
+   all foreign quotes, line breaks, NUL, everything except the backtick — and the literal closes exactly at the own
    closing quote that brings the nesting depth back to zero (not at a nested closer, not at a foreign one). *)
 Theorem balanced_verbatim : forall o body tail, is_left_quote o = true ->
   no_special body = true -> balanced o (quote_match o) 0 body = true ->
@@ -410,8 +436,8 @@ Theorem balanced_verbatim : forall o body tail, is_left_quote o = true ->
     lex_string (o :: body ++ quote_match o :: tail) = LexOk (token_type o) body (Z.of_nat (length body) + 2) lines.
 Proof.
   intros o body tail Ho Hn Hb. pose proof (quote_pair_of o Ho) as QP.
-  destruct (roundtrip o body tail Ho) as [lines E]. exists lines.
-  unfold literal_of, encode in E. rewrite (encode_balanced _ _ (qp_oc _ _ QP) _ _ Hn Hb) in E.
+  destruct (roundtrip_flag false o body tail Ho (no_special_nonneg _ Hn)) as [lines E]. exists lines.
+  unfold literal_gen, encode_gen in E. rewrite (encode_balanced _ _ (qp_oc _ _ QP) _ _ Hn Hb) in E.
   cbn [app] in E. rewrite <- app_assoc in E. cbn [app] in E. rewrite E. f_equal.
   cbn [length]. rewrite app_length. cbn [length]. lia.
 Qed.
@@ -428,7 +454,7 @@ Inductive esc_class (R out : list Z) (n : Z) (R2 : list Z) : Prop :=
 | EC_uplus ds : (1 <= length ds <= 8)%nat -> Forall hexd ds -> R = 85 :: 43 :: ds ++ BT :: R2 ->
     out = [parse_hex32 ds] -> n = Z.of_nat (length ds) + 3 -> esc_class R out n R2
 | EC_quote q : is_quote q = true -> R = q :: BT :: R2 -> out = [q] -> n = 2 -> esc_class R out n R2
-| EC_kept used : (R = used ++ R2 \/ (R2 = [] /\ used = R ++ [EOFc])) -> out = BT :: used ->
+| EC_kept used : R = used ++ R2 -> out = BT :: used ->
     n = Z.of_nat (length used) -> Forall notq used -> esc_class R out n R2.
 
 Lemma lookup_name_In buf tbl v : lookup_name buf tbl = Some v -> In (buf, v) tbl.
@@ -488,11 +514,7 @@ Lemma esc_loop_classify : forall rest cur s hc buf n used out n' R2,
   esc_class (used ++ rest) out n' R2.
 Proof.
   induction rest as [|cch rest' IH]; intros cur s hc buf n used out n' R2 Hbuf Hn Hq Hcur Hst E.
-  - cbn in E. inversion E; subst. apply (EC_kept _ _ _ _ (used ++ [EOFc])).
-    + right. rewrite app_nil_r. auto.
-    + reflexivity.
-    + rewrite app_length. cbn [length]. lia.
-    + apply Forall_app. split; [assumption|]. constructor; [reflexivity|constructor].
+  - cbn in E. inversion E; subst. apply (EC_kept _ _ _ _ used); auto.
   - cbn [esc_loop peek hd] in E. destruct (is_quote cch) eqn:Eq.
     + destruct ((cur =? BT) && (peek2 (cch :: rest') =? BT)) eqn:Eb.
       * apply andb_true_iff in Eb. destruct Eb as [E1 E2]. apply Z.eqb_eq in E1, E2.
@@ -554,15 +576,15 @@ Qed.
 
 (* consequence: the machine consumes a prefix of its input (or runs into the end of the source) *)
 Lemma unescape_split R out n R2 : unescape R = (out, n, R2) ->
-  (exists used, R = used ++ R2 /\ n = Z.of_nat (length used)) \/ R2 = [].
+  exists used, R = used ++ R2 /\ n = Z.of_nat (length used).
 Proof.
   intros E. destruct (unescape_classify _ _ _ _ E) as [name Hin HR Hn | ds Hl Hds HR Ho Hn | q Hq HR Ho Hn | used HR Ho Hn Hq].
-  - left. exists (tl name). auto.
-  - left. exists (85 :: 43 :: ds ++ [BT]). split.
+  - exists (tl name). auto.
+  - exists (85 :: 43 :: ds ++ [BT]). split.
     + rewrite HR. cbn [app]. rewrite <- app_assoc. reflexivity.
     + cbn [length]. rewrite app_length. cbn [length]. lia.
-  - left. exists [q; BT]. split; [exact HR | rewrite Hn; reflexivity].
-  - destruct HR as [HR|[HR _]]; [left; exists used; auto | right; exact HR].
+  - exists [q; BT]. split; [exact HR | rewrite Hn; reflexivity].
+  - exists used; auto.
 Qed.
 
 (* ------------------------------------------------------------------ shape of every run of parseString *)
@@ -612,10 +634,8 @@ Proof.
   destruct (ch =? BT) eqn:EBT.
   { apply Z.eqb_eq in EBT. subst ch.
     destruct (unescape rest1) as [[out n] rest2] eqn:Eu.
-    destruct (unescape_split _ _ _ _ Eu) as [(used & -> & ->) | ->].
-    - apply shape_cons. apply shape_app. apply IH. rewrite app_length in Hf. lia.
-    - specialize (IH o q (lit ++ out) lines (pos + 1 + n) [] ltac:(cbn; lia)).
-      destruct f; [cbn in IH; contradiction|]. rewrite ps_loop_S in *. exact IH. }
+    destruct (unescape_split _ _ _ _ Eu) as (used & -> & ->).
+    apply shape_cons. apply shape_app. apply IH. rewrite app_length in Hf. lia. }
   apply shape_cons. apply IH. lia.
 Qed.
 
